@@ -55,6 +55,17 @@ type WithNull struct {
 	P  *null.String        `plenc:"8"`
 }
 
+// null.* values as slice elements (every element codec kind: varint, fixed, length-delimited)
+type NullSlices struct {
+	I  []null.Int              `plenc:"1"`
+	B  []null.Bool             `plenc:"2"`
+	F  []null.Float            `plenc:"3"`
+	S  []null.String           `plenc:"4"`
+	T  []null.Time             `plenc:"5"`
+	FF [][]null.Float          `plenc:"6"`
+	MF map[string][]null.Float `plenc:"7"`
+}
+
 type Named struct {
 	A MyInt                `plenc:"1"`
 	B MyString             `plenc:"2" json:"bee"`
@@ -164,6 +175,6 @@ var catalogue = []reflect.Type{
 	reflect.TypeOf(map[KeyS]Inner{}), reflect.TypeOf([]Rec{}), reflect.TypeOf(map[string]MutA{}),
 }
 
-var catalogueNull = []reflect.Type{reflect.TypeOf(WithNull{})}
+var catalogueNull = []reflect.Type{reflect.TypeOf(WithNull{}), reflect.TypeOf(NullSlices{}), reflect.TypeOf([]null.Float{})}
 var catalogueJSON = []reflect.Type{reflect.TypeOf(JSONHolder{}), tJSONMap, tJSONArr}
 var catalogueBQ = []reflect.Type{reflect.TypeOf(BQHolder{})}
